@@ -501,6 +501,8 @@ prop("C08", level="model_checking",
      assumptions=["interleavings are explored at atomic-operation granularity under sequential consistency; weaker-than-SC effects are left to Miri's weak-memory emulation and TSan", "the linearizability checker (60 lines, brute force with memoisation, <= 24 operations per page) is trusted", "reset() is modelled as a per-page clear (it is documented as not harvesting)"],
      level_text="Exhaustive exploration of all interleavings of bounded concurrent programs executed on the real implementation (not a model), with a linearizability oracle per execution; sampling beyond the catalogue.",
      level_note="Bounded programs only; the yield points exist only in --cfg vm_memory_verif builds (the shim forwards to std's AtomicU64 with the caller's ordering).",
+     cov_map={"states": ["scheduler_decision_points"], "transitions": ["decision_alternatives_seen"],
+              "traces_validated_against_impl": ["schedules_explored", "sampled_schedules", "free_histories"]},
      design_ref="DESIGN.md §7 C08")
 
 
